@@ -25,6 +25,8 @@ def mk_feature(f):
         quals["label"] = ["L%d" % f["q"]]
     if f.get("cit"):
         quals["citation"] = list(f["cit"])
+    if f.get("plasmid") is not None:
+        quals["plasmid"] = f["plasmid"]
     return SeqFeature(mk_location(f["parts"]), type=f["type"], qualifiers=quals)
 
 
